@@ -186,6 +186,8 @@ def inventory_rule(chk, prefix, P, bodies, allow, text, lock_unwrap_ok=True, ski
     total = 0
     undischarged_total = 0
     for b in sorted(bodies, key=lambda x: x.key):
+        if b.key in getattr(P, "absorbed", ()):
+            continue  # a new private helper: its sites are inventoried inside every body that calls it (mir: unknown-helper inlining)
         ss = sites(b)
         if not ss:
             continue
